@@ -582,7 +582,7 @@ func ruleC01Walk(c *Checker) {
 		fi := extractOf(ls, 0)
 		found := false
 		if fi != nil {
-			tE, _ := condEdges(H, func(v ssa.Value) bool { return isSymlinkModeTest(v, fi) })
+			tE, _ := symlinkEdges(H, fi)
 			for _, e := range tE {
 				found = true
 				okr, r := returnsNonNilErrorFrom(e.To())
@@ -677,7 +677,7 @@ func reaches(a, b *ssa.BasicBlock) bool {
 // equivalents) on the given FileInfo value.
 func isSymlinkModeTest(v ssa.Value, fi ssa.Value) bool {
 	bo, ok := v.(*ssa.BinOp)
-	if !ok || bo.Op != token.NEQ {
+	if !ok || (bo.Op != token.NEQ && bo.Op != token.EQL) {
 		return false
 	}
 	if z, ok := constInt(bo.Y); !ok || z != 0 {
@@ -696,6 +696,32 @@ func isSymlinkModeTest(v ssa.Value, fi ssa.Value) bool {
 		return false
 	}
 	return fi == nil || canon(call.Call.Value) == canon(fi)
+}
+
+// symlinkEdges: the edges on which a ModeSymlink test of fi's mode (either
+// polarity: mode&ModeSymlink != 0 or == 0) says "is a link" / "is not".
+func symlinkEdges(fn *ssa.Function, fi ssa.Value) (isLink, notLink []Edge) {
+	tE, fE := condEdges(fn, func(v ssa.Value) bool { return isSymlinkModeTest(v, fi) })
+	pol := func(e Edge) bool { // true: the matched comparison is "== 0"
+		ifi := e.From.Instrs[len(e.From.Instrs)-1].(*ssa.If)
+		cnd, _ := stripNot(ifi.Cond)
+		return cnd.(*ssa.BinOp).Op == token.EQL
+	}
+	for _, e := range tE {
+		if pol(e) {
+			notLink = append(notLink, e)
+		} else {
+			isLink = append(isLink, e)
+		}
+	}
+	for _, e := range fE {
+		if pol(e) {
+			isLink = append(isLink, e)
+		} else {
+			notLink = append(notLink, e)
+		}
+	}
+	return
 }
 
 // cleanedValue: the value is the result of a lexically cleaning library call
@@ -1033,7 +1059,7 @@ func (p *Prog) isLinkRemover(g *ssa.Function) bool {
 	})
 	good = append(good, t1...)
 	// not a symlink
-	_, f2 := condEdges(g, func(v ssa.Value) bool { return isSymlinkModeTest(v, fi) })
+	_, f2 := symlinkEdges(g, fi)
 	good = append(good, f2...)
 	// Remove(arg) ok edge, or "return os.Remove(arg)" directly
 	directReturn := map[*ssa.Return]bool{}
@@ -1231,8 +1257,28 @@ func dstCompareEdges(p *Prog, u *unpackCtx) (differ, equal []Edge, dstParam *ssa
 				continue
 			}
 			isNeq := (bo.Op == token.NEQ) != neg
+			// "differ" is only meaningful between two lexically normalised spellings: the entry path is built
+			// with filepath.Join, so a destination compared as the caller spelled it (dst/, dst/., a/../dst)
+			// differs from it as a string while naming the same directory
+			norm := func(v ssa.Value) bool {
+				if cleanedValue(v, map[ssa.Value]bool{}) {
+					return true
+				}
+				switch x := cx(v).(type) {
+				case *ssa.Field:
+					return fieldOf(x) == u.PathVar
+				case *ssa.UnOp:
+					if fa, ok := x.X.(*ssa.FieldAddr); ok {
+						return fieldOf(fa) == u.PathVar
+					}
+				}
+				return false
+			}
 			// on the true edge the (possibly negated) condition holds
 			if (isNeq && onTrue) || (!isNeq && !onTrue) {
+				if !norm(bo.X) || !norm(bo.Y) {
+					continue
+				}
 				differ = append(differ, e)
 			} else {
 				equal = append(equal, e)
